@@ -71,10 +71,19 @@ func builderFor(engine string) datamodel.NodeBuilder {
 	case "bind:M":
 		typedInit()
 		return bindnode.Prototype((*bMapMsg3)(nil), typedTS.TypeByName("MapMsg3")).NewBuilder()
+	case "gen:MS":
+		return gendemo.Type.Map__String__Msg3.NewBuilder()
 	case "gen:S":
 		return gendemo.Type.Msg3.NewBuilder()
 	case "gen:M":
 		return gendemo.Type.Map__String__Msg3.NewBuilder()
+	}
+	if strings.HasPrefix(engine, "bind:") { // bind:LMS = [{String:Msg3}] ... over inferred Go types
+		nb, err := lib.TypedBuilder("tbind", shapeTy(engine[5:]))
+		if err != nil || nb == nil {
+			panic(fmt.Sprintf("no builder for %s: %v", engine, err))
+		}
+		return nb
 	}
 	if strings.HasPrefix(engine, "basic:") {
 		return lib.BuilderFor(engine[6:])
@@ -175,6 +184,7 @@ type injGen struct {
 	count  int
 	typed  bool // typed engines: values at int / struct positions, wrong-kind injections at values
 	eng    string // typed family: the engine the script is for (same-engine AssignNode arguments)
+	genOnly bool  // the script runs on generated code only: unknown field names may be injected
 	depth  int
 }
 
@@ -288,7 +298,19 @@ func (g *injGen) msg3(v *lib.Val) []*lib.Op {
 	for _, i := range g.r.Perm(3) {
 		e := v.M[i]
 		ops = append(ops, g.dup(acc)...)
+		if g.point() { // Finish before every field is there: refused, nothing changes
+			ops = append(ops, &lib.Op{Code: "FI", Want: "m"})
+		}
+		if g.genOnly && g.point() { // a name that is not a field (generated code: invalid key)
+			if g.r.Bool() {
+				ops = append(ops, &lib.Op{Code: "AE", Key: "nope", Want: "k"})
+			} else {
+				ops = append(ops, op("AK"), &lib.Op{Code: "X", V: lib.Str("whe"), Want: "k"}, &lib.Op{Code: "X", V: lib.Str(e.K)}, op("AV"))
+				goto value
+			}
+		}
 		ops = append(ops, g.entryHead(e.K)...)
+	value:
 		if g.point() {
 			ops = append(ops, want(intTries[g.r.Intn(len(intTries))], "w"))
 		}
@@ -317,6 +339,91 @@ func (g *injGen) mapMsg3(v *lib.Val) []*lib.Op {
 	}
 	ops = append(ops, g.dup(acc)...)
 	return append(ops, op("FI"))
+}
+
+// ---- the modelled typed family (coq/Node/Typed.v): Msg3 (S), {String:T} (M), [T] (L), spelled
+// outside-in: LMS = [{String:Msg3}]
+
+func shapeTy(spec string) *lib.SchTy {
+	switch spec[0] {
+	case 'M':
+		return lib.SchMapOf(false, shapeTy(spec[1:]))
+	case 'L':
+		return lib.SchList(false, shapeTy(spec[1:]))
+	}
+	return lib.TypedFamily()[6]
+}
+
+func genShape(r *lib.Rng, spec string) *lib.Val {
+	switch spec[0] {
+	case 'M':
+		v := &lib.Val{Kind: lib.KMap}
+		for i, n := 0, r.Intn(4); i < n; i++ {
+			key := lib.StrPool[r.Intn(len(lib.StrPool))]
+			dup := false
+			for _, e := range v.M {
+				dup = dup || e.K == key
+			}
+			if !dup {
+				v.M = append(v.M, lib.Entry{K: key, V: genShape(r, spec[1:])})
+			}
+		}
+		return v
+	case 'L':
+		v := &lib.Val{Kind: lib.KList}
+		for i, n := 0, r.Intn(4); i < n; i++ {
+			v.L = append(v.L, genShape(r, spec[1:]))
+		}
+		return v
+	}
+	return genMsg3(r)
+}
+
+var listTries = []*lib.Op{
+	{Code: "X", V: lib.Int(1)}, {Code: "X", V: lib.Str("x")}, {Code: "BM", Hint: 0}, {Code: "X", V: lib.Bool(true)},
+	{Code: "XN", N: lib.PlainSpec(lib.Map())},
+}
+var mapTries = append(append([]*lib.Op{}, structTries...), &lib.Op{Code: "XN", N: lib.PlainSpec(lib.List())}, &lib.Op{Code: "XN", N: lib.PlainSpec(lib.Int(3))})
+
+func (g *injGen) shape(spec string, v *lib.Val, root bool) []*lib.Op {
+	var ops []*lib.Op
+	if g.point() {
+		tr := mapTries
+		if spec[0] == 'L' {
+			tr = listTries
+		}
+		for i, n := 0, 1+g.r.Intn(2); i < n; i++ {
+			ops = append(ops, want(tr[g.r.Intn(len(tr))], "w"))
+		}
+	}
+	p := 25
+	if root {
+		p = 8
+	}
+	if g.r.Chance(p) { // the whole value as a node of another implementation
+		return append(ops, &lib.Op{Code: "XN", N: lib.PlainSpec(v)})
+	}
+	switch spec[0] {
+	case 'M':
+		ops = append(ops, &lib.Op{Code: "BM", Hint: int64(len(v.M)) + int64(g.r.Intn(3)) - 1})
+		var acc []string
+		for _, e := range v.M {
+			ops = append(ops, g.dup(acc)...)
+			ops = append(ops, g.entryHead(e.K)...)
+			ops = append(ops, g.shape(spec[1:], e.V, false)...)
+			acc = append(acc, e.K)
+		}
+		ops = append(ops, g.dup(acc)...)
+		return append(ops, op("FI"))
+	case 'L':
+		ops = append(ops, &lib.Op{Code: "BL", Hint: int64(len(v.L)) + int64(g.r.Intn(3)) - 1})
+		for _, x := range v.L {
+			ops = append(ops, op("AV"))
+			ops = append(ops, g.shape(spec[1:], x, false)...)
+		}
+		return append(ops, op("FI"))
+	}
+	return append(ops, g.msg3(v)...)
 }
 
 // ---- the typed family: every assign form, at every typed position
@@ -721,6 +828,23 @@ func main() {
 					runCase(out, fmt.Sprintf("%s.%d.%s", base, j, e[:1]), e, []*lib.Val{v}, lib.ScriptText(s))
 				}
 			}
+			for j, s := range variants(seed+1, func(g *injGen) []*lib.Op { g.genOnly = true; return g.msg3(v) }, true, 3) {
+				runCase(out, fmt.Sprintf("%s.u%d.g", base, j), "gen:S", []*lib.Val{v}, lib.ScriptText(s))
+			}
+		case 3: // deeper shapes of the modelled family: bindnode over inferred Go types; gendemo for S and MS
+			if i%8 == 3 {
+				specs := []string{"LS", "LMS", "MMS", "MLS", "LLS", "MS", "S", "MS"}
+				spec := specs[rng.Intn(len(specs))]
+				v := genShape(rng, spec)
+				for j, s := range variants(seed, func(g *injGen) []*lib.Op { return g.shape(spec, v, true) }, true, 5) {
+					runCase(out, fmt.Sprintf("%s.%d.b", base, j), "bind:"+spec, []*lib.Val{v}, lib.ScriptText(s))
+					if spec == "S" || spec == "MS" {
+						runCase(out, fmt.Sprintf("%s.%d.g", base, j), "gen:"+spec, []*lib.Val{v}, lib.ScriptText(s))
+					}
+				}
+				continue
+			}
+			fallthrough
 		default: // {String:Msg3}
 			v := &lib.Val{Kind: lib.KMap}
 			cnt := rng.Intn(4)
@@ -763,6 +887,7 @@ func probes(out *lib.Out) {
 	out.Case("p2", "probe", "bind_map_nodup", bit(letterAt("bind:M", "BM1 AE:a "+one+" AE:a", 10) == '.'))
 	out.Case("p3", "probe", "bind_reset_panics", bit(strings.Contains(observe("bind:M", "BM0 FI RS BM0 FI"), "rs=P")))
 	out.Case("p4", "probe", "gen_struct_stuck", bit(letterAt("gen:S", "BM3 AE:whee Xi1 AK Xs:whee AK", 5) == 'P'))
+	out.Case("p6", "probe", "gen_map_node_panics", bit(letterAt("gen:M", "XN m1 k61 m3 k:whee i1 k:woot i2 k:waga i3", 0) == 'P'))
 	out.Case("p5", "probe", "gen_map_key_nodup", bit(letterAt("gen:M", "BM1 AE:a "+one+" AK Xs:a", 11) == '.'))
 }
 
